@@ -231,7 +231,7 @@ def run(ctx):
     # ---- clause 1/2: panic sites -----------------------------------------------------
     from .. import panics
     sites = panics.enumerate_sites(p, sorted(reached_fns))
-    chk.floor("panic-capable sites in the consumers", len(sites), 150)
+    chk.floor("panic-capable sites in the consumers", len(sites), 100)
     for s in sites:
         if s["in_log"]:
             continue
